@@ -192,6 +192,10 @@ impl VM {
         self.frames[0].ip = 0;
         self.frames[0].base_pointer = 0;
 
+        // a previous run that ended in an error may have left operands and call frames behind
+        self.stack.clear();
+        self.frames.truncate(1);
+
         // Keep your friends close
         let constants = code.constants;
         #[cfg(feature = "verif")]
